@@ -32,7 +32,7 @@ def main(argv: List[str]) -> int:
     cov = U.report_unions(run, live, mm, ua, {"missing", "O0", "O1", "O2", "cover"}, what)
     # ---- evaluated: leaves of the per-class lemma that loss-freedom rests on
     res = check_classes(live, mm, decls)
-    n1, d1 = _tables.report(run, res, ["class-exists", "attr-for-prop", "wire-name", "annotation", "special"])
+    n1, d1 = _tables.report(run, res, ["class-exists", "class-hook", "attr-for-prop", "wire-name", "annotation", "special"])
     # ---- evaluated: every type alias is usable as a root type
     n2 = d2 = 0
     conv = live.converter
